@@ -62,7 +62,7 @@ def cases(tier, seed):
                             for n2 in (n + 4, 2 * n, max(3, n - 2)):
                                 n2 = n2 + (n2 % 2) if name == "pdp" else n2
                                 out.append(dict(kind="starts", cfg=cfg, B=B, s=rnd.randrange(10**6), hostile=hostile, k=rnd.randrange(1, n2 + 3), inst_n=n2))
-        for cfg in (dict(env="flp", n=n + 2, k=2), dict(env="mcp", n=n + 1, items=2 * n, k=2)):
+        for cfg in (dict(env="flp", n=n + 2, k=2), dict(env="mcp", n=n + 1, items=2 * n, k=2), dict(env="smtwtp", n=n)):
             for B in (1, 3):
                 out.append(dict(kind="starts", cfg=cfg, B=B, s=rnd.randrange(10**6), k=rnd.randrange(1, n + 3)))
     for n in ((6, 9) if q else (5, 6, 10, 20)):
